@@ -108,6 +108,9 @@ type sentPacketHandler struct {
 
 	perspective protocol.Perspective
 
+	// the first packet number used in the Initial packet number space
+	initialPN protocol.PacketNumber
+
 	qlogger     qlogwriter.Recorder
 	lastMetrics qlog.MetricsUpdated
 	logger      utils.Logger
@@ -150,6 +153,7 @@ func NewSentPacketHandler(
 		congestion:                     congestion,
 		ignorePacketsBelow:             ignorePacketsBelow,
 		perspective:                    pers,
+		initialPN:                      initialPN,
 		qlogger:                        qlogger,
 		logger:                         logger,
 	}
@@ -379,7 +383,8 @@ func (h *sentPacketHandler) ReceivedAck(ack *wire.AckFrame, encLevel protocol.En
 	pnSpace := h.getPacketNumberSpace(encLevel)
 
 	largestAcked := ack.LargestAcked()
-	if largestAcked > pnSpace.largestSent {
+	// Initial packet numbers start at initialPN, all smaller numbers were never sent.
+	if largestAcked > pnSpace.largestSent || (encLevel == protocol.EncryptionInitial && ack.LowestAcked() < h.initialPN) {
 		return false, &qerr.TransportError{
 			ErrorCode:    qerr.ProtocolViolation,
 			ErrorMessage: "received ACK for an unsent packet",
